@@ -15,4 +15,6 @@ CONSTANTS
   NsCachesInit = TRUE
   EmbNullChecked = TRUE
   OverflowWrapped = TRUE
+  InstOffsetAll = TRUE
+  OpenPrecheck = TRUE
 CHECK_DEADLOCK FALSE
